@@ -112,6 +112,7 @@ type Term struct {
 	Bound []*Term  // Op == "forall"/"exists": bound vars
 	Idx   int      // Op == "sel": field index
 	open  bool     // contains bound variables
+	ground bool    // literal, or constructor applied to ground terms
 	// Go-side payloads
 	Extra any
 }
@@ -162,6 +163,17 @@ func intern(t *Term) *Term {
 	if t.Op == "bvar" {
 		t.open = true
 	}
+	switch t.Op {
+	case "int", "bool", "str", "real":
+		t.ground = true
+	case "mk":
+		t.ground = true
+		for _, a := range t.Args {
+			if !a.ground {
+				t.ground = false
+			}
+		}
+	}
 	internTab[k] = t
 	return t
 }
@@ -180,8 +192,16 @@ func BoolLit(b bool) *Term {
 }
 func StrLit(s string) *Term { return intern(&Term{Op: "str", Sort: SString, Str: s}) }
 func RealLit(s string) *Term {
-	// s: decimal or "n/d"
-	return intern(&Term{Op: "real", Sort: SReal, Str: s})
+	// s: decimal or "n/d"; canonicalised so that equal values are the same term
+	r, ok := new(big.Rat).SetString(s)
+	if !ok {
+		panic("bad real literal " + s)
+	}
+	c := r.Num().String()
+	if !r.IsInt() {
+		c += "/" + r.Denom().String()
+	}
+	return intern(&Term{Op: "real", Sort: SReal, Str: c})
 }
 func Var(name string, s *Sort) *Term { return intern(&Term{Op: "var", Sort: s, Str: name}) }
 func BVar(name string, s *Sort) *Term {
@@ -341,8 +361,8 @@ func Eq(a, b *Term) *Term {
 	if a.Sort != b.Sort {
 		panic(fmt.Sprintf("Eq sort mismatch: %s : %s vs %s : %s", a, a.Sort.Name, b, b.Sort.Name))
 	}
-	if a.IsLit() && b.IsLit() {
-		return TFalse // distinct hash-consed literals of the same sort
+	if a.ground && b.ground {
+		return TFalse // distinct hash-consed ground values of the same sort
 	}
 	if a.Sort == SBool {
 		if a.IsTrue() {
@@ -514,6 +534,9 @@ func Select(a, i *Term) *Term {
 	if a.Sort.Kind != KArray {
 		panic("select on non-array " + a.Sort.Name)
 	}
+	if a.Sort.Key != i.Sort {
+		panic(fmt.Sprintf("select index sort %s on %s", i.Sort.Name, a.Sort.Name))
+	}
 	for {
 		switch a.Op {
 		case "store":
@@ -521,7 +544,7 @@ func Select(a, i *Term) *Term {
 			if i == j {
 				return a.Args[2]
 			}
-			if i.IsLit() && j.IsLit() {
+			if i.ground && j.ground {
 				a = a.Args[0]
 				continue
 			}
@@ -547,6 +570,9 @@ func Store(a, i, v *Term) *Term {
 	}
 	if v.Sort != a.Sort.Elem {
 		panic(fmt.Sprintf("store elem sort mismatch: %s into %s", v.Sort.Name, a.Sort.Name))
+	}
+	if a.Sort.Key != i.Sort {
+		panic(fmt.Sprintf("store index sort %s on %s", i.Sort.Name, a.Sort.Name))
 	}
 	if a.Op == "store" && a.Args[1] == i {
 		a = a.Args[0]
@@ -796,10 +822,22 @@ func (t *Term) head() string {
 	case "str":
 		return smtString(t.Str)
 	case "real":
-		if strings.Contains(t.Str, "/") {
-			p := strings.SplitN(t.Str, "/", 2)
-			return "(/ " + p[0] + ".0 " + p[1] + ".0)"
+		neg := strings.HasPrefix(t.Str, "-")
+		body := strings.TrimPrefix(t.Str, "-")
+		var out string
+		if strings.Contains(body, "/") {
+			p := strings.SplitN(body, "/", 2)
+			out = "(/ " + p[0] + ".0 " + p[1] + ".0)"
+		} else {
+			out = body + ".0"
 		}
+		if neg {
+			return "(- " + out + ")"
+		}
+		return out
+	}
+	switch t.Op {
+	case "real!unused":
 		if !strings.Contains(t.Str, ".") {
 			return t.Str + ".0"
 		}
